@@ -758,11 +758,23 @@ public:
       return false;
     } else {
       term_domain_t right(o);
+      // A variable known to only one of the operands is unconstrained
+      // in the other one: give it a fresh term there so that the set
+      // of variables in left & right are common.
+      std::vector<variable_t> left_vars, right_vars;
+      for (auto p : left._var_map)
+        left_vars.push_back(p.first);
+      for (auto p : right._var_map)
+        right_vars.push_back(p.first);
+      for (auto const &v : right_vars)
+        left.domvar_of_var(v);
+      for (auto const &v : left_vars)
+        right.domvar_of_var(v);
+
       typename ttbl_t::term_map_t gen_map;
       dom_var_alloc_t palloc(left._alloc, right._alloc);
 
       // Build up the mapping of right onto left, variable by variable.
-      // Assumption: the set of variables in left & right are common.
       for (auto p : left._var_map) {
         if (!left._ttbl.map_leq(right._ttbl, left.term_of_var(p.first),
                                 right.term_of_var(p.first), gen_map))
